@@ -13,7 +13,9 @@ import (
 	"bytes"
 	"crypto"
 	"encoding/hex"
+	"errors"
 	"fmt"
+	"io"
 	"math/big"
 	"os"
 	"os/exec"
@@ -162,6 +164,37 @@ var kinds = []string{
 	// signing with the process-wide default entropy source (a nil reader): whatever sits between the library and
 	// crypto/rand is shared by all goroutines.  The signatures differ from call to call; each must verify
 	"sign.default-entropy",
+	// a caller-supplied entropy source that runs dry / fails part-way through a signing call on a shared key
+	// (the call must fail), after which the same key objects sign with a working source: the signature is the
+	// function of (key, digest, entropy) it always is - what a pristine object of the same key returns
+	"reader.fails",
+}
+
+// selfCheckFailed prefixes the result of an operation whose own oracle failed (in whichever phase it ran).
+const selfCheckFailed = "SELF-CHECK-FAILED: "
+
+// dryReader delivers n bytes and then reports err (io.EOF when nil).
+type dryReader struct {
+	n   int
+	err error
+}
+
+func (r *dryReader) Read(p []byte) (int, error) {
+	if r.n <= 0 {
+		if r.err != nil {
+			return 0, r.err
+		}
+		return 0, io.EOF
+	}
+	n := r.n
+	if n > len(p) {
+		n = len(p)
+	}
+	for i := 0; i < n; i++ {
+		p[i] = 0xa5
+	}
+	r.n -= n
+	return n, nil
 }
 
 type panickingReader struct{ after int }
@@ -319,6 +352,37 @@ func (e *env) exec(o op) []byte {
 		ssig, err := e.spriv[i].Sign(nil, e.dig[j], nil)
 		out = append(out, flag(err == nil && e.spriv[i].PublicKey().Verify(e.dig[j], ssig))...)
 		return out
+	case "reader.fails":
+		var out []byte
+		_, err := e.priv[i].Sign(&dryReader{n: (o.C*7 + o.A) % 32}, e.dig[j], nil)
+		out = append(out, flag(err != nil)...)
+		_, _, _, err = e.priv[j].SignRaw(&dryReader{n: (o.B*6 + o.C) % 32, err: errors.New("entropy source failed")}, e.dig[i])
+		out = append(out, flag(err != nil)...)
+		_, err = e.spriv[i].Sign(&dryReader{n: (o.A*6 + o.B) % 32}, e.dig[j], nil)
+		out = append(out, flag(err != nil)...)
+		ent := bytes.Repeat([]byte{byte(0x30 + o.C)}, 32)
+		for _, k := range []*secec.PrivateKey{e.priv[i], e.priv[j]} {
+			sig, err := k.Sign(bytes.NewReader(ent), e.dig[j], nil)
+			pristine, err2 := secec.NewPrivateKey(k.Bytes())
+			if err != nil || err2 != nil {
+				return []byte(selfCheckFailed + fmt.Sprintf("Sign / NewPrivateKey failed after a failed entropy source: %v / %v", err, err2))
+			}
+			want, err := pristine.Sign(bytes.NewReader(ent), e.dig[j], nil)
+			if err != nil || !bytes.Equal(sig, want) {
+				return []byte(selfCheckFailed + fmt.Sprintf("a key object on which an earlier signing call ran out of entropy signs %x with entropy %x over %x, a pristine object of the same key signs %x (err=%v)", sig, ent, e.dig[j], want, err))
+			}
+			out = append(out, sig...)
+		}
+		ssig, err := e.spriv[i].Sign(bytes.NewReader(ent), e.dig[j], nil)
+		spristine, err2 := bitcoin.NewSchnorrPrivateKey(e.spriv[i].Bytes())
+		if err != nil || err2 != nil {
+			return []byte(selfCheckFailed + fmt.Sprintf("Schnorr Sign / key import failed after a failed aux source: %v / %v", err, err2))
+		}
+		swant, err := spristine.Sign(bytes.NewReader(ent), e.dig[j], nil)
+		if err != nil || !bytes.Equal(ssig, swant) {
+			return []byte(selfCheckFailed + fmt.Sprintf("a Schnorr key object on which an earlier signing call ran out of aux bytes signs %x, a pristine object of the same key signs %x (err=%v)", ssig, swant, err))
+		}
+		return append(out, ssig...)
 	case "reader.panics":
 		var out []byte
 		try := func(f func()) {
@@ -541,6 +605,11 @@ func workload(t *rapid.T, coldStart bool) {
 	kindsUsed := map[string]bool{}
 	for i, o := range ops {
 		kindsUsed[o.Kind] = true
+		for _, res := range [][]byte{got[i], want[i]} {
+			if bytes.HasPrefix(res, []byte(selfCheckFailed)) {
+				t.Fatalf("operation %v: %s\n  workload: %s", o, res, desc)
+			}
+		}
 		if !bytes.Equal(got[i], want[i]) {
 			t.Fatalf("operation %v returned %x when run concurrently but %x when run alone\n  workload: %s", o, got[i], want[i], desc)
 		}
